@@ -18,9 +18,9 @@ tvars == <<vars, l>>
 SetOf(s) == { s[i] : i \in DOMAIN s }
 Get(rec, p, dflt) == IF p \in DOMAIN rec THEN rec[p] ELSE dflt
 
-ModelWin == LET S == { i \in 1..W : offset' + i <= N /\ slot'[offset' + i].a }
+ModelWin == LET S == { i \in 1..W : offset' + i <= NMax /\ slot'[offset' + i].a }
                 K == IF S = {} THEN 0 ELSE CHOOSE i \in S : \A j \in S : j <= i
-            IN [i \in 1..K |-> IF slot'[offset' + i].a THEN slot'[offset' + i].p ELSE -99]
+            IN [i \in 1..K |-> IF slot'[offset' + i].a THEN <<slot'[offset' + i].p, slot'[offset' + i].hd>> ELSE <<-99, 0>>]
 
 Matches(e) ==
    LET o == e.obs IN
@@ -38,32 +38,32 @@ Matches(e) ==
 IsEvent(name) == l <= Len(TraceLog) /\ TraceLog[l].ev = name /\ l' = l + 1
 
 TReset == /\ (IsEvent("reset") \/ IsEvent("abort"))
-          /\ sched' = 0 /\ pool' = {} /\ queue' = [h \in Hdrs |-> 0] /\ pend' = [p \in Peers |-> <<>>] /\ done' = {}
-          /\ slot' = [h \in Hdrs |-> NilSlot] /\ offset' = 0 /\ lacks' = [p \in Peers |-> {}] /\ faults' = 0
+          /\ head' = 0 /\ acc' = {} /\ pool' = {} /\ queue' = [h \in Hdrs |-> 0] /\ pend' = [p \in Peers |-> <<>>] /\ done' = {}
+          /\ slot' = [n \in Nums |-> NilSlot] /\ offset' = 0 /\ lacks' = [p \in Peers |-> {}] /\ faults' = 0
           /\ broken' = FALSE /\ delivered' = <<>> /\ old' = old /\ hist' = hist
 
 TInit == /\ IsEvent("Init")
-         /\ LET a == TraceLog[l].args IN a.n = N /\ a.w = W /\ a.body = Body /\ a.maxp = MaxProc
+         /\ LET a == TraceLog[l].args IN a.n = N /\ a.fl = FL /\ a.forkfrom = ForkFrom /\ a.w = W /\ a.body = Body /\ a.maxp = MaxProc
          /\ UNCHANGED vars
 
 TSkip == /\ IsEvent("Complete") /\ UNCHANGED vars
 
 Act(e) == LET a == e.args IN
-   CASE e.ev = "Schedule" -> Schedule(a.k) /\ e.res.ins = a.k
+   CASE e.ev = "Schedule" -> Schedule(a.v, a.chunk, a.from) /\ SetOf(e.res.acc) = acc' \ acc /\ e.res.ins = Cardinality(acc' \ acc)
      [] e.ev = "Reserve"  -> /\ Reserve(a.p, a.n)
                              /\ e.res.h = (IF pend[a.p] = <<>> THEN pend'[a.p] ELSE <<>>)
                              /\ e.res.err = (IF broken' /\ ~broken THEN "invalidChain" ELSE "ok")
      [] e.ev = "Deliver"  -> /\ DeliverCore(a.p, a.items)
                              /\ e.res.acc = (IF pend[a.p] = <<>> THEN 0 ELSE Matched(pend[a.p], a.items, 1))
                              /\ (e.res.err = "nofetch") <=> (pend[a.p] = <<>>)
-                             /\ UNCHANGED <<sched, offset, broken, delivered, old, faults, hist>>
+                             /\ UNCHANGED <<head, acc, offset, broken, delivered, old, faults, hist>>
      [] e.ev = "Cancel"   -> Cancel(a.p)
      [] e.ev = "Expire"   -> Expire(a.p)
      [] e.ev = "Revoke"   -> Revoke(a.p)
      [] e.ev = "Results"  -> /\ Results
                              /\ LET k == Len(delivered') - Len(delivered) IN
                                 /\ Len(e.res.r) = k
-                                /\ \A i \in 1..k : /\ e.res.r[i][1] = delivered'[Len(delivered) + i].h
+                                /\ \A i \in 1..k : /\ e.res.r[i][5] = delivered'[Len(delivered) + i].h
                                                    /\ e.res.r[i][2] = delivered'[Len(delivered) + i].b
      [] OTHER -> FALSE
 
